@@ -150,6 +150,10 @@ const POSITIONS: &[(&str, &str, char, char, bool)] = &[
     ("slot-value", "<slot sv=\"{{ @E@ }}\"/>", 's', 'd', false),
     ("slot-value-in-tmpl", "<template name=\"t\"><slot sv=\"{{ q }}\"/></template><template is=\"t\" data=\"{{ q: @E@ }}\"/>", 's', 'd', true),
     ("slot-name", "<slot name=\"{{ @E@ }}\"/>", 's', 'd', true),
+    // (a <slot> is updated as a whole: none of its attributes is reachable for the binding map)
+    ("slot-elem-forwarded-slot-attr", "<multi p=\"{{ c }}\"><slot slot=\"{{ @E@ }}\"/><view slot=\"a\">A</view></multi>", 's', 'm', true),
+    ("slot-elem-common-attrs", "<slot id=\"{{ @E@ }}\" data:x=\"{{ @E@ }}\" mark:m=\"{{ @E@ }}\"/>", 's', 'd', true),
+    ("slot-elem-common-attrs-static-root", "<view><slot name=\"q\" id=\"{{ @E@ }}\" data:x=\"{{ @E@ }}\"/></view>", 's', '-', true),
     ("event-handler", "<view bind:tap=\"{{ @E@ }}\"/>", 's', '-', false),
     ("for-list", "<block wx:for=\"{{ @E@ }}\">[{{ index }}:{{ item }}]</block>", 'l', '-', true),
     ("for-list-key-this", "<view wx:for=\"{{ @E@ }}\" wx:key=\"*this\">{{ item }}</view>", 'l', '-', true),
@@ -279,6 +283,7 @@ fn build(seed: u64, i: u64, p: &(&str, &str, char, char, bool), e: &(&str, &[&st
         'p' => Some("plain"),
         'y' => Some("dyn"),
         'n' => Some("dynn"),
+        'm' => Some("multi"),
         _ => None,
     };
     if let Some(c) = child {
